@@ -60,13 +60,13 @@ prop(
     ok_pred={"staged": "staged_ok", "ramp": "ramp_ok"},
     check_ok_always=True,
     rule="CalculateStagedRate / CalculateRampRate (distribution none, jitter 0) on synthetic non-decreasing timestamps: 1-8 stages, "
-         "durations 0 (zero-length), 1ns..hours, targets up and down to 1e6, given or default start, 5-60 query times incl. every stage boundary +-1ns "
+         "durations 0 (zero-length), 1ns..100 hours, targets up and down to 2e9, given or default start, 5-60 query times incl. every stage boundary +-1ns "
          "and far beyond the end; ramps up/down over 1s..1000s; stage f64: Go float64 primitives vs the Flocq model on random bit patterns; "
          "non-trivial = staged profile with >= 2 stages / any ramp / any f64 primitive case; distinct = distinct argument tuples",
     assumptions=["float64 arithmetic of Go on amd64 = IEEE-754 binary64 round-to-nearest-even (Flocq BinarySingleNaN), checked per primitive by stage f64",
                  "int(f) for NaN/out-of-range = -2^63 (amd64)",
                  "times within int64 nanoseconds; time.Time.Sub does not saturate in the generated range",
-                 "shape facts of the binary64 interpolation term (interp_facts) are hypotheses of the *_partial theorems; they are checked on the implementation's outputs by the predicate interp_ok"],
+                 "shape and closeness theorems cover int64 durations and target differences below 2^53 (f64_exact)"],
 )
 
 
